@@ -81,8 +81,8 @@ SIZES = [0, 1, 15, 16, 17, 1023, 1024, 1025, 5000]
 BASE_ALPHABET = ["", ".", "..", "a", "sub", "a/b", "/", "/etc", "x\0y", "@LONG", "@UNI"]  # + "@D0".."@Dk" at run time
 # characters that string-matching code is known to treat specially (line ends for regular expressions and
 # str.splitlines, C0/C1 controls, Unicode separators, the other platform's separator); used to decorate components
-SPECIALS = ["\n", "\r", "\r\n", "\t", "\x0b", "\x0c", "\x1c", "\x1f", "\x7f", "\x85", "\u2028", "\u2029", " ", "\\", "\ufeff"]
-SPECIAL_SET = set("".join(SPECIALS)) - {" ", "\\"}
+SPECIALS = ["\0", "\n", "\r", "\r\n", "\t", "\x0b", "\x0c", "\x1c", "\x1f", "\x7f", "\x85", "\u2028", "\u2029", " ", "\\", "\ufeff"]
+SPECIAL_SET = set("".join(SPECIALS)) - {" ", "\\", "\0"}
 EXT_ALPHABET = ["%2e%2e", "\\", "~", "...", " ", "．．", "a∕b"]
 PUT_BODY = b"C19-PUT-BODY"
 
@@ -701,7 +701,7 @@ def directed_cases():
     seen = set()
     for p in explicit + [["", "@OUT", ".", "secret.txt"], ["", "@OUT", "..", "outside", "secret.txt"]]:
         for i, c in enumerate(p):
-            if not ("/" in c or c in (".", "..") or c.startswith("@ABS")):
+            if not ("/" in c or c in ("", ".", "..") or c.startswith("@ABS")):
                 continue
             for s in SPECIALS:
                 for d in (c + s, s + c, c[: len(c) // 2] + s + c[len(c) // 2 :] if not c.startswith("@") else c + s + "x"):
